@@ -74,7 +74,15 @@ fn mem_shape(ty: &Ty, depth: u32) -> (f64, u32) {
 			alpha = alpha.max(1.0);
 			levels += 1;
 		},
-		Ty::Option(t) | Ty::Array(t, _) | Ty::Ptr(t, _) => sub(t, &mut alpha, &mut levels),
+		Ty::Ptr(t, k) => {
+			sub(t, &mut alpha, &mut levels);
+			if matches!(k, PtrKind::Box | PtrKind::Rc | PtrKind::Arc) {
+				// one heap object per pointer: header + pointee, paid for by at least min_len bytes
+				let pointee = t.max_len().unwrap_or(64) as f64;
+				alpha = alpha.max((32.0 + pointee) / (t.min_len().max(1) as f64));
+			}
+		},
+		Ty::Option(t) | Ty::Array(t, _) => sub(t, &mut alpha, &mut levels),
 		Ty::Result(a, b) => {
 			sub(a, &mut alpha, &mut levels);
 			sub(b, &mut alpha, &mut levels);
@@ -119,7 +127,7 @@ pub fn c09(ctx: &Ctx) {
 				let (st, ok, delivered) = measure(ops, &case.bytes, via);
 				rep.evaluations += 1;
 				rep.count("honest_decodes");
-				let bound = 4.0 * alpha * 2.0 * delivered as f64 + beta;
+				let bound = 16.0 * alpha * delivered as f64 + beta;
 				let ratio = (st.peak_live as f64 / bound * 1000.0) as u64;
 				worst_ratio_milli = worst_ratio_milli.max(ratio);
 				if !ok {
@@ -192,7 +200,7 @@ pub fn c09(ctx: &Ctx) {
 						}
 						// oracle B: absolute linear bound in the bytes actually delivered
 						for (st, dl) in [(s1, d1), (s2, d2)] {
-							let bound = 4.0 * alpha * 2.0 * dl as f64 + beta;
+							let bound = 16.0 * alpha * dl as f64 + beta;
 							if st.peak_live as f64 > bound && !empty_elems {
 								rep.violation(
 									&format!("linear-bound:{}", ops.name),
@@ -202,6 +210,24 @@ pub fn c09(ctx: &Ctx) {
 							}
 							if !empty_elems {
 								worst_ratio_milli = worst_ratio_milli.max((st.peak_live as f64 / bound * 1000.0) as u64);
+							}
+						}
+						// a PLAUSIBLE count: exactly as many elements as payload bytes follow. Nothing about
+						// such a count justifies reserving more than the delivered bytes can fill.
+						if !payload.is_empty() && !empty_elems && !is_bits {
+							let b3 = build(payload.len() as u128);
+							rep.begin(|| format!("C09 {} plausible-count {:?} mark {mi} payload {pname}", ops.name, via));
+							let (s3, _ok3, d3) = measure(ops, &b3, via);
+							rep.evaluations += 1;
+							rep.count("plausible_count_cases");
+							let bound = 16.0 * alpha * d3 as f64 + beta;
+							worst_ratio_milli = worst_ratio_milli.max((s3.peak_live as f64 / bound * 1000.0) as u64);
+							if s3.peak_live as f64 > bound {
+								rep.violation(
+									&format!("linear-bound:{}", ops.name),
+									format!("{}: count prefix #{mi} claiming {} elements with {} payload bytes present via {:?}: peak {} live bytes for {} delivered bytes, above the bound {:.0} (largest request {})", ops.name, payload.len(), payload.len(), via, s3.peak_live, d3, bound, s3.max_request),
+									replay_json("C09", ops, &b3[..b3.len().min(4096)], &[("via", jstr(&format!("{:?}", via))), ("claimed", payload.len().to_string())]),
+								);
 							}
 						}
 						if rep.want_sample() {
@@ -214,6 +240,40 @@ pub fn c09(ctx: &Ctx) {
 								("peak_live", jstr(&format!("{} / {}", s1.peak_live, s2.peak_live))),
 								("largest_request", jstr(&format!("{} / {}", s1.max_request, s2.max_request))),
 							]));
+						}
+					}
+				}
+			}
+		}
+	}
+	// nesting: every level of a recursive type claims a plausible count; each level is allowed its
+	// fixed preallocation window, no more
+	if ctx.shard == 1 % ctx.nshards {
+		if let Some(ops) = ctx.universe.iter().find(|o| o.name == "Tree") {
+			for levels in [20usize, 200] {
+				for claimed in [600u128, 10_000, 16_383] {
+					let mut b = Vec::new();
+					for _ in 0..levels {
+						b.push(0u8);
+						compact_encode(claimed, &mut b);
+					}
+					b.push(0);
+					b.push(0);
+					b.resize(b.len() + 65_536, 0);
+					for via in [Via::Slice, Via::Unknown, Via::Shared] {
+						rep.begin(|| format!("C09 Tree nested {levels} levels claiming {claimed} via {:?}", via));
+						let (st, _ok, delivered) = measure(ops, &b, via);
+						rep.evaluations += 1;
+						rep.count("nested_plausible_cases");
+						rep.nontrivial(hash64(&("nested", levels, claimed as u64, via as u8)));
+						let bound = levels as f64 * (16384.0 + 8192.0) + 64.0 * delivered as f64 + 1_048_576.0;
+						rep.max("max:nested_peak_seen", st.peak_live as u64);
+						if st.peak_live as f64 > bound {
+							rep.violation(
+								"linear-bound:nested:Tree",
+								format!("Tree nested {levels} levels, each level claiming {claimed} children, via {:?}: peak {} live bytes for {delivered} delivered bytes; allowed {levels} preallocation windows + linear part = {:.0}", via, st.peak_live, bound),
+								jobj(&[("property", jstr("C09")), ("type", jstr("Tree")), ("levels", levels.to_string()), ("claimed", claimed.to_string()), ("via", jstr(&format!("{:?}", via)))]),
+							);
 						}
 					}
 				}
@@ -239,6 +299,9 @@ pub fn c09(ctx: &Ctx) {
 	}
 	rep.max("max:worst_peak_over_bound_permille", worst_ratio_milli);
 	finish(ctx, &rep);
+	if std::env::var("C09_DEBUG").is_ok() {
+		eprintln!("worst ratio permille {worst_ratio_milli}");
+	}
 }
 
 // ------------------------------------------------------------------------------------------
